@@ -2,6 +2,7 @@
 
 # Python core imports
 import abc
+import copy
 import logging
 
 import numpy as np
@@ -110,7 +111,7 @@ class Operator(abc.ABC):
             duration = self.duration
         elif np.any(np.asarray(duration) < 0):
             raise ValueError("Cannot have duration < 0")
-        new = self.__new__(type(self))
+        new = copy.copy(self)  # shallow: carries the attributes of every subclass
         new.name = name
         new.duration = duration
         return new
@@ -184,6 +185,11 @@ class MultiOperator(Operator):
     def __mul__(self, other):
         # a new group: `block * op` leaves `block` as it is
         return MultiOperator(self.operators + [other])
+
+    def copy(self, **kwargs):
+        new = super().copy(**kwargs)
+        new.operators = list(self.operators)
+        return new
 
     def append(self, op):
         """add a new operator to the existing list"""
